@@ -96,6 +96,20 @@ func (c11) Gen(seed uint64, idx int, tier string) *Scenario {
 	if kind == "eofdata" || r.Chance(1, 5) {
 		sc.Reads = MarkEOF(sc.Reads, len(src))
 	}
+	sc.CloseErr = r.Chance(1, 8)
+	if r.Chance(1, 6) {
+		sc.StatSize = r.Range(1, max(1, len(src)))
+	}
+	if r.Chance(1, 10) {
+		// a long run of zero-byte reads somewhere (a reader that is not ready yet)
+		at := r.Intn(len(sc.Reads) + 1)
+		run := make([]simio.ReadStep, r.Range(20, 400))
+		for i := range run {
+			run[i].Zero = true
+		}
+		sc.Reads = append(sc.Reads[:at:at], append(run, sc.Reads[at:]...)...)
+		sc.SetStr("partition", sc.Str("partition")+"+zerorun")
+	}
 	// endless input after the scripted bytes
 	if r.Chance(1, 6) || (strings.HasPrefix(class, "lex") && r.Chance(1, 2)) {
 		if strings.HasPrefix(class, "lex") {
@@ -179,6 +193,10 @@ func checkPipeBasics(t *testing.T, prop string, sc *Scenario, res *PipeResult, o
 		o.viol(prop, "close-count", fmt.Sprintf("closes=%d", res.FS.Closes),
 			fmt.Sprintf("Close was called %d times by the time the bubble was quiescent (want exactly 1)", res.FS.Closes), withChoices())
 	}
+	if res.LateWrites > 0 {
+		o.viol(prop, "late-write", "the library writes to the caller's writers after the call has returned",
+			fmt.Sprintf("%d writes to the log/output writer began after %s had returned: goroutines of the call outlive it and still use the caller's objects", res.LateWrites, sc.API), withChoices())
+	}
 	if res.FS.ReadAfterClose > 0 {
 		o.viol(prop, "read-after-close", "read after close", fmt.Sprintf("%d Read calls after Close", res.FS.ReadAfterClose), withChoices())
 	}
@@ -197,6 +215,12 @@ func (c11) Run(t *testing.T, sc *Scenario) *Outcome {
 	}
 	if sc.Fill > 0 && fs.Delivered > len(sc.Src) {
 		o.fault("endless_input", 1)
+	}
+	if sc.CloseErr && fs.Closes > 0 {
+		o.fault("close_error", 1)
+	}
+	if sc.StatSize > 0 && sc.StatSize < len(sc.Src) {
+		o.fault("stale_stat_size", 1)
 	}
 	realChoice := false
 	stalls := 0
